@@ -356,3 +356,18 @@ func trimTo(s string, n int) string {
 	}
 	return s
 }
+
+// flavoured gives a plain-error decision one of the shapes a Go error can have
+// (harness.PlainFlavours): none of them is an *SMTPError, so every property
+// that speaks of "any other error" covers them alike. For the flavours that
+// stand for a fixed error value the text is that value's.
+func flavoured(t *rapid.T, label string, d harness.Decision) harness.Decision {
+	if d.Kind != "plain" {
+		return d
+	}
+	d.Flavour = rapid.SampledFrom(harness.PlainFlavours).Draw(t, label+"_flavour")
+	if txt := harness.FlavourText(d.Flavour); txt != "" {
+		d.Msg = txt
+	}
+	return d
+}
